@@ -873,6 +873,34 @@ def render_constraint(g, T, coefs, vars_, rel, d):
     return NOT(['<=', t, s]) if g.coin() else ['<', s, t]
 
 
+def la_tight(g):
+    """Integer instances at the boundary of the tightening step: one row has coefficient gcd m >= 2 and a constant of
+    either sign that m usually does not divide, and the weighted sum of the constants lies within one tightening gain of
+    zero, so that whether the clause is a tautology depends on the rounding direction.  Both valid and invalid clauses
+    arise; the oracle decides (mut = 'tight': the instance is not claimed to be correct)."""
+    T = 'int'
+    vars_ = IV[:g.i(1, 2)]
+    k = g.i(2, 3)
+    rels = [g.pick(['>=', '>=', '>']) for _ in range(k)]
+    cs = [g.i(1, 3) for _ in range(k)]
+    cs[-1] = 1
+    m = g.pick([2, 2, 3, 4])
+    i0 = g.i(0, k - 2)
+    Ls = [[g.i(-3, 3) for _ in vars_] for _ in range(k - 1)]
+    Ls[i0] = [m * g.i(-2, 2) for _ in vars_]
+    if not any(Ls[i0]):
+        Ls[i0][0] = m * g.pick([-1, 1])
+    Ls.append([-sum(cs[i] * Ls[i][j] for i in range(k - 1)) for j in range(len(vars_))])
+    ds = [g.i(-9, 9) for _ in range(k - 1)]
+    if ds[i0] % m == 0 and g.coin(3, 4):
+        ds[i0] += g.i(1, m - 1)
+    S = g.i(-m * cs[i0], m * cs[i0])
+    ds.append(S - sum(cs[i] * ds[i] for i in range(k - 1)))
+    lits = [render_constraint(g, T, Ls[i], vars_, rels[i], ds[i]) for i in range(k)]
+    scale = g.pick([1, 1, 2])
+    return dict(args=lits, coeffs=[NUM(T, c * scale) for c in cs], mut='tight')
+
+
 @template('verit_la_generic')
 def t_la_generic(g):
     T = g.pick(['int', 'real', 'real'])
@@ -881,6 +909,8 @@ def t_la_generic(g):
         lits = [['<=', NUM(T, a), NUM(T, b)] if a <= b else NOT(['<=', NUM(T, a), NUM(T, b)]),
                 ['<', NUM(T, a), NUM(T, b)] if a < b else NOT(['<', NUM(T, a), NUM(T, b)])]
         return dict(args=[g.pick(lits)], coeffs=[])
+    if T == 'int' and g.coin(1, 3):
+        return la_tight(g)
     vars_ = (IV if T == 'int' else RV)[:g.i(1, 3)]
     k = g.i(2, 4)
     rels = [g.pick(['>=', '>=', '>', '=']) for _ in range(k)]
@@ -1222,6 +1252,8 @@ def build_case(rule, D, mutate):
     for k in ('ctx', 'sizes', 'coeffs', 'inst'):
         if k in d:
             case[k] = d[k]
+    if 'mut' in d:                  # the template itself does not claim that the instance is a correct one
+        case['mut'] = d['mut']
     if mutate:
         for _ in range(6):
             new, kind = mutate_case(g, case)
@@ -1920,6 +1952,8 @@ def mut_class(mut):
         return 'premise-set'
     if m in ('sizes', 'coeff', 'ctx', 'inst'):
         return 'arguments'
+    if m == 'tight':
+        return 'boundary'
     return 'other'
 
 
